@@ -972,13 +972,9 @@ func runCase(w *worker, raw json.RawMessage) ([]finding, error) {
 		}
 		fs, _ := w.checkVal(c)
 		return fs, nil
-	case "hist":
-		var c histCase
-		if err := json.Unmarshal(raw, &c); err != nil {
-			return nil, err
-		}
-		fs, _ := histOnce(c)
-		return fs, nil
+	case "hist", "lhist":
+		fs, _, err := histOnce(raw)
+		return fs, err
 	}
 	return nil, fmt.Errorf("unknown case kind %q", head.Kind)
 }
